@@ -27,7 +27,8 @@ def one(ctx, ch0, hist, tag, dupnames=False, pair=("NM", "LM")):
                           expected={"NM": F._jsonable(d[0][1:2])}, observed={"LM": F._jsonable(d[0][2:]), "query": d[0][0], "more": [x[0] for x in d[1:]]})
             return
         for r, f in zip(recs, pair):
-            F.run_call(r, f, call, F.Plan(planspec), snaps_on=False)
+            # every third step with hooks that read the forest and derived attributes of its nodes while the call is under way
+            F.run_call(r, f, call, F.Plan(planspec), snaps_on=(step % 3 == 1))
     s0, s1 = recs[0].snapshot(), recs[1].snapshot()
     case = {"state": [list(c) for c in ch0], "history": [[F._jsonable(c), F._jsonable(p)] for c, p in hist], "dupnames": dupnames, "pair": list(pair)}
     ctx.case((tag, pair, ch0, tuple(hist)), sample=case if ctx.counters["mon.C18.queries"] % 97 == 0 else None)
